@@ -1485,6 +1485,10 @@ class FnLower2(FnLower):
         ab = self.abstracted(i0, env)
         if ab is not None and ab[1] is None:
             env[pat] = Var("handle", ab[0], rust=pat); return          # a local standing for an opaque accessor chain
+        if ab is not None and self.opts.get("alias_abstract") and ab[1][1] == "Nat" and not mut and pat not in self.strictly_assigned and ty is None:
+            # (table option) an immutable local naming an abstracted word: an alias of the input, no `let` is emitted
+            self.namemap.append(f"{ab[1][0]}={pat}")
+            env[pat] = Var("w", ab[1][0], "usize", rust=pat); return
         if ab is not None and ab[1][1] in self.ABS_OBJ:
             # a local naming an abstracted object (a slice / a modulus the context hands out by reference): an alias of the input
             if mut or pat in self.ever_assigned: self.fail(f"`{pat}` names an abstracted object but is mutable / re-assigned", ln)
@@ -1676,6 +1680,12 @@ class FnLower2(FnLower):
                 if x not in cap_names: cap_names.append(x); cap_binders.append(f"({x} : {tyl})")
         for (bn, bt) in (self.abs_in([body[0], body[1]], env) if self.abs else []):
             if bn not in cap_names: cap_names.append(bn); cap_binders.append(f"({bn} : {bt})")
+        if self.opts.get("alias_abstract"):
+            # captured inputs in TABLE order after the ordinary locals (independent of the order of the `let`s that name them)
+            order = {ent[0]: q for q, ent in enumerate(e for e in self.abs.values() if e is not None)}
+            pairs = list(zip(cap_names, cap_binders))
+            pairs = [p for p in pairs if p[0] not in order] + sorted([p for p in pairs if p[0] in order], key=lambda p: order[p[0]])
+            cap_names = [p[0] for p in pairs]; cap_binders = [p[1] for p in pairs]
         car_names = []; car_types = []
         for n in carried:
             v = env[n]
@@ -2660,8 +2670,8 @@ SCALING_PRELUDE = """/-- bounds-checked read of a read-only slice of structs (`&
 def idxT {α : Type} (l : List α) (i : Nat) : R α := match l[i]? with | some x => .ok x | none => .error .oob
 """
 TABLE_SCALING = [
-    {"file": SV, "fn": "multiply_add_plain", "model": "multiplyAddPlain (Model/Scheme.lean)", "opaque": ["Plaintext", "ContextData"], "abstract": ABS_SCALING},
-    {"file": SV, "fn": "multiply_sub_plain", "model": "multiplySubPlain (Model/Scheme.lean)", "opaque": ["Plaintext", "ContextData"], "abstract": ABS_SCALING},
+    {"file": SV, "fn": "multiply_add_plain", "model": "multiplyAddPlain (Model/Scheme.lean)", "opaque": ["Plaintext", "ContextData"], "abstract": ABS_SCALING, "alias_abstract": True},
+    {"file": SV, "fn": "multiply_sub_plain", "model": "multiplySubPlain (Model/Scheme.lean)", "opaque": ["Plaintext", "ContextData"], "abstract": ABS_SCALING, "alias_abstract": True},
 ]
 
 FILES += [
